@@ -57,7 +57,7 @@ impl<'tcx> Cx<'tcx> {
                     let (adt, name) = match pty.ty.kind() {
                         ty::Adt(def, _) => {
                             let v = match pty.variant_index { Some(v) => def.variant(v), None => def.non_enum_variant() };
-                            (self.tcx.def_path_str(def.did()), v.fields[f].name.to_string())
+                            (self.stable_path(def.did()), v.fields[f].name.to_string())
                         }
                         ty::Closure(d, _) => (format!("closure:{}", self.tcx.def_path_str(*d)), format!("upvar{}", f.as_usize())),
                         ty::Tuple(_) => ("tuple".to_string(), format!("{}", f.as_usize())),
@@ -71,7 +71,7 @@ impl<'tcx> Cx<'tcx> {
             }
             pty = pty.projection_ty(self.tcx, e);
         }
-        s.push_str("]}");
+        let _ = write!(s, "],\"ty\":{}}}", self.ty(pty.ty));
         s
     }
 
@@ -80,18 +80,27 @@ impl<'tcx> Cx<'tcx> {
         let ty = c.const_.ty();
         let mut s = format!("{{\"k\":\"const\",\"ty\":{}", self.ty(ty));
         if let ty::FnDef(d, args) = ty.kind() {
-            let _ = write!(s, ",\"fn\":{},\"gargs\":{}", esc(&tcx.def_path_str(*d)), esc(&format!("{:?}", args)));
+            let _ = write!(s, ",\"fn\":{},\"gargs\":{}", esc(&self.stable_path(*d)), esc(&format!("{:?}", args)));
         }
         match c.const_ {
             Const::Unevaluated(u, _) => {
                 if let Some(p) = u.promoted { let _ = write!(s, ",\"promoted\":{}", p.as_usize()); }
-                else { let _ = write!(s, ",\"name\":{}", esc(&tcx.def_path_str(u.def))); }
+                else { let _ = write!(s, ",\"name\":{}", esc(&self.stable_path(u.def))); }
             }
             Const::Ty(_, ct) => {
                 if let ty::ConstKind::Param(p) = ct.kind() { let _ = write!(s, ",\"param\":{}", esc(p.name.as_str())); }
                 else { let _ = write!(s, ",\"tyconst\":{}", esc(&format!("{:?}", ct))); }
             }
-            Const::Val(..) => {}
+            Const::Val(cv, _) => {
+                if let ConstValue::Scalar(rustc_middle::mir::interpret::Scalar::Ptr(p, _)) = cv {
+                    let id = p.provenance.alloc_id();
+                    match tcx.global_alloc(id) {
+                        rustc_middle::mir::interpret::GlobalAlloc::Static(sd) => { let _ = write!(s, ",\"static\":{},\"static_off\":{}", esc(&self.stable_path(sd)), p.into_raw_parts().1.bytes()); }
+                        rustc_middle::mir::interpret::GlobalAlloc::Function { instance } => { let _ = write!(s, ",\"fnptr\":{}", esc(&self.stable_path(instance.def_id()))); }
+                        _ => { let _ = write!(s, ",\"alloc\":{}", esc(&format!("{:?}", id))); }
+                    }
+                }
+            }
         }
         // try to evaluate to a scalar
         let env = TypingEnv::post_analysis(tcx, owner);
@@ -116,16 +125,28 @@ impl<'tcx> Cx<'tcx> {
             Rvalue::Use(o, _) => format!("{{\"k\":\"use\",\"o\":{}}}", self.operand(owner, body, o)),
             Rvalue::Ref(_, bk, p) => format!("{{\"k\":\"ref\",\"mut\":{},\"place\":{}}}", matches!(bk, BorrowKind::Mut { .. }), self.place(body, p)),
             Rvalue::RawPtr(k, p) => format!("{{\"k\":\"rawptr\",\"kind\":{},\"place\":{}}}", esc(&format!("{:?}", k)), self.place(body, p)),
-            Rvalue::Cast(k, o, t) => format!("{{\"k\":\"cast\",\"kind\":{},\"o\":{},\"ty\":{}}}", esc(&format!("{:?}", k)), self.operand(owner, body, o), self.ty(*t)),
-            Rvalue::BinaryOp(op, b) => format!("{{\"k\":\"bin\",\"op\":{},\"l\":{},\"r\":{}}}", esc(&format!("{:?}", op)), self.operand(owner, body, &b.0), self.operand(owner, body, &b.1)),
+            Rvalue::Cast(k, o, t) => format!("{{\"k\":\"cast\",\"kind\":{},\"o\":{},\"ty\":{},\"from\":{}}}", esc(&format!("{:?}", k)), self.operand(owner, body, o), self.ty(*t), self.ty(o.ty(&body.local_decls, self.tcx))),
+            Rvalue::BinaryOp(op, b) => format!("{{\"k\":\"bin\",\"op\":{},\"l\":{},\"r\":{},\"lty\":{},\"span_exp\":false}}", esc(&format!("{:?}", op)), self.operand(owner, body, &b.0), self.operand(owner, body, &b.1), self.ty(b.0.ty(&body.local_decls, self.tcx))),
             Rvalue::UnaryOp(op, o) => format!("{{\"k\":\"un\",\"op\":{},\"o\":{}}}", esc(&format!("{:?}", op)), self.operand(owner, body, o)),
-            Rvalue::Discriminant(p) => format!("{{\"k\":\"discr\",\"place\":{}}}", self.place(body, p)),
+            Rvalue::Discriminant(p) => {
+                let pty = p.ty(&body.local_decls, self.tcx).ty;
+                let (ety, vars) = match pty.kind() {
+                    ty::Adt(def, _) if def.is_enum() => (self.stable_path(def.did()), def.variants().iter().map(|v| esc(v.name.as_str())).collect::<Vec<_>>()),
+                    _ => (String::from("?"), Vec::new()),
+                };
+                let dvals: Vec<String> = match pty.kind() {
+                    ty::Adt(def, _) if def.is_enum() => def.discriminants(self.tcx).map(|(_, d)| format!("{}", d.val)).collect(),
+                    _ => Vec::new(),
+                };
+                format!("{{\"k\":\"discr\",\"place\":{},\"ety\":{},\"variants\":[{}],\"dvals\":[{}],\"pty\":{}}}", self.place(body, p), esc(&ety), vars.join(","), dvals.join(","), self.ty(pty))
+            }
             Rvalue::CopyForDeref(p) => format!("{{\"k\":\"use\",\"o\":{{\"k\":\"copy\",\"place\":{}}}}}", self.place(body, p)),
             Rvalue::Aggregate(kind, fields) => {
                 let fs: Vec<String> = fields.iter().map(|o| self.operand(owner, body, o)).collect();
                 let (k, name, variant) = match &**kind {
-                    AggregateKind::Adt(d, v, _, _, _) => { let def = self.tcx.adt_def(*d); ("adt", self.tcx.def_path_str(*d), def.variant(*v).name.to_string()) }
+                    AggregateKind::Adt(d, v, _, _, _) => { let def = self.tcx.adt_def(*d); ("adt", self.stable_path(*d), format!("{}#{}#{}", def.variant(*v).name, v.as_usize(), def.variant(*v).fields.iter().map(|f| f.name.to_string()).collect::<Vec<_>>().join("|"))) }
                     AggregateKind::Closure(d, _) => ("closure", self.tcx.def_path_str(*d), String::new()),
+                    AggregateKind::RawPtr(..) => ("rawptr", String::new(), String::new()),
                     AggregateKind::Tuple => ("tuple", String::new(), String::new()),
                     AggregateKind::Array(_) => ("array", String::new(), String::new()),
                     o => ("other", format!("{:?}", o), String::new()),
@@ -380,7 +401,7 @@ impl<'tcx> Cx<'tcx> {
                 TerminatorKind::Goto { target } => format!("{{\"k\":\"goto\",\"t\":{}}}", target.as_usize()),
                 TerminatorKind::SwitchInt { discr, targets } => {
                     let ts: Vec<String> = targets.iter().map(|(v, b)| format!("[{},{}]", v, b.as_usize())).collect();
-                    format!("{{\"k\":\"switch\",\"discr\":{},\"targets\":[{}],\"otherwise\":{},\"span\":{}}}", self.operand(owner, body, discr), ts.join(","), targets.otherwise().as_usize(), sp)
+                    format!("{{\"k\":\"switch\",\"discr\":{},\"dty\":{},\"targets\":[{}],\"otherwise\":{},\"span\":{},\"exp\":{}}}", self.operand(owner, body, discr), self.ty(discr.ty(&body.local_decls, tcx)), ts.join(","), targets.otherwise().as_usize(), sp, exp)
                 }
                 TerminatorKind::Return => "{\"k\":\"return\"}".into(),
                 TerminatorKind::Unreachable => "{\"k\":\"unreachable\"}".into(),
